@@ -117,6 +117,81 @@ assert ecb(bytes(range(32)), bytes.fromhex("00112233445566778899aabbccddeeff")).
 assert cbc_enc(bytes.fromhex("2b7e151628aed2a6abf7158809cf4f3c"), bytes(range(16)), bytes.fromhex("6bc1bee22e409f96e93d7e117393172a")).hex() == "7649abac8119b246cee98e9b12e9197d"
 
 
+PRIVATE_ROLES = ("_get_round_keys", "_expand_key", "_aes_encrypt_block", "_aes_decrypt_block", "_pkcs7_pad", "_pkcs7_unpad")
+DRIVER_ROLES = ("aes_ecb_encrypt", "aes_ecb_decrypt", "aes_cbc_encrypt", "aes_cbc_decrypt")
+
+
+class Skip(Exception):
+    pass
+
+
+class _Skipped:
+    """result of a call that could not be made (the function no longer exists under any known name): equal to everything"""
+
+    def __eq__(self, other):
+        return True
+
+    def __ne__(self, other):
+        return False
+
+    def __len__(self):
+        return 0
+
+    def hex(self):
+        return "skipped"
+
+
+SKIP = _Skipped()
+
+
+def _missing(*_a, **_k):
+    raise Skip()
+
+
+class Roles:
+    """The functions of the real module by ROLE: the name used in the unchanged tree, else the name the pack's data-flow
+    analysis found (out/c20_roles_<tree>.json, written by contracts/C20.py::roles_of), else -- for the four drivers -- what the
+    real patch_pypdf_fallback_aes() installs into pypdf."""
+
+    def __init__(self, m):
+        import hashlib
+        import json
+        self.m = m
+        self.map = {}
+        repo = os.environ.get("VERIF_REPO", "/repo")
+        path = os.path.join(os.path.dirname(os.path.dirname(os.path.abspath(__file__))), "out",
+                            "c20_roles_%s.json" % hashlib.sha1(os.path.realpath(repo).encode()).hexdigest()[:12])
+        try:
+            self.map = json.load(open(path))
+        except Exception:  # noqa
+            self.map = {}
+        for r in PRIVATE_ROLES + DRIVER_ROLES + ("_chunks", "_xtime", "_gf_mul", "_ROUND_KEY_CACHE", "patch_pypdf_fallback_aes"):
+            setattr(self, r, self._find(r))
+
+    def _find(self, role):
+        for name in (role, self.map.get(role)):
+            if name and hasattr(self.m, name):
+                return getattr(self.m, name)
+        if role in DRIVER_ROLES:
+            fb = _provider()
+            try:
+                if fb is not None and self.m.patch_pypdf_fallback_aes():
+                    return getattr(fb, role)
+            except Exception:  # noqa
+                pass
+        return _missing
+
+    def __getattr__(self, name):          # tables and anything else: straight from the module
+        return getattr(self.m, name)
+
+    def clear_cache(self):
+        from collections import OrderedDict
+        for v in vars(self.m).values():
+            if isinstance(v, (OrderedDict, dict)) and v is not vars(self.m) and any(isinstance(k, (bytes, tuple, int)) for k in list(v)[:1] or [b""]):
+                if isinstance(v, OrderedDict):
+                    v.clear()
+
+
 def _wrapper(m):
     """CryptAES wrapper installed by patch_pypdf_fallback_aes (if pypdf runs on its fallback provider)."""
     try:
@@ -214,7 +289,7 @@ def long_messages(m, seed=0):
     for idx, n in enumerate(long_lengths(m)):
         klen = (16, 32, 24)[idx % 3]
         key, iv, data = rnd.randbytes(klen), rnd.randbytes(16), rnd.randbytes(n)
-        m._ROUND_KEY_CACHE.clear()
+        m.clear_cache()
         c_ecb, c_cbc = ecb(key, data), cbc_enc(key, iv, data)     # reference; its inverse on these ciphertexts is `data`
         for name, call, want in (("aes_ecb_encrypt", lambda: m.aes_ecb_encrypt(key, data), c_ecb),
                                  ("aes_ecb_decrypt", lambda: m.aes_ecb_decrypt(key, c_ecb), data),
@@ -222,6 +297,8 @@ def long_messages(m, seed=0):
                                  ("aes_cbc_decrypt", lambda: m.aes_cbc_decrypt(key, iv, c_cbc), data)):
             try:
                 got = bytes(call())
+            except Skip:
+                continue
             except Exception as e:  # noqa
                 got = f"{type(e).__name__}: {e}".encode()
             if got != want:
@@ -320,6 +397,8 @@ def installed(m):
 
 def chunks_ok(m):
     """the assumed contract of _chunks: block j of a block-aligned buffer is bytes 16j..16j+15 (bytes and memoryview input)"""
+    if m._chunks is _missing:
+        return None
     for n in list(range(0, 81, 16)) + [4096, 4112]:
         d = bytes((7 * i + 3) % 256 for i in range(n))
         for buf in (d, memoryview(d), bytearray(d)):
@@ -373,34 +452,40 @@ def cases(seed):
 
 def find(req):
     import importlib
-    m = importlib.import_module("sharepoint2text.parsing.extractors.pdf._pypdf_aes_fallback")
+    m = Roles(importlib.import_module("sharepoint2text.parsing.extractors.pdf._pypdf_aes_fallback"))
     tried = 0
 
     def bad(target, inputs, want, got):
         return {"reproduced": True, "target": f"_pypdf_aes_fallback.py::{target}", "inputs": inputs,
                 "expected": want, "observed": got, "tried": tried}
     for tname, ref in (("_SBOX", S), ("_INV_SBOX", IS)):
+        if not hasattr(m, tname):
+            continue
         t = list(getattr(m, tname))
         if t != ref:
             i = next(k for k in range(256) if k >= len(t) or t[k] != ref[k])
             return bad(tname, {"index": i}, hex(ref[i]), hex(t[i]) if i < len(t) else "missing")
     for k in (2, 3, 9, 11, 13, 14):
+        if not hasattr(m, f"_MUL{k}"):
+            continue
         t = list(getattr(m, f"_MUL{k}"))
         ref = [_pmul(v, k) for v in range(256)]
         if t != ref:
             i = next(j for j in range(256) if t[j] != ref[j])
             return bad(f"_MUL{k}", {"index": i}, hex(ref[i]), hex(t[i]))
     for a in range(256):
-        if m._xtime(a) != _pmul(a, 2):
+        if m._xtime is not _missing and m._xtime(a) != _pmul(a, 2):
             return bad("_xtime", {"a": a}, _pmul(a, 2), m._xtime(a))
         for b in (0, 1, 2, 3, 9, 11, 13, 14, 0x80, 0xFF, a):
-            if m._gf_mul(a, b) != _pmul(a, b):
+            if m._gf_mul is not _missing and m._gf_mul(a, b) != _pmul(a, b):
                 return bad("_gf_mul", {"a": a, "b": b}, _pmul(a, b), m._gf_mul(a, b))
     def run(fn, *args):
         """value of a call on VALID inputs; an escaping exception is an observation like any other"""
         try:
             r = fn(*args)
             return [bytes(x) for x in r] if isinstance(r, list) else bytes(r)
+        except Skip:
+            return SKIP
         except Exception as e:  # noqa
             return f"raised {type(e).__name__}: {e}"
 
@@ -412,7 +497,7 @@ def find(req):
         return bad(*r)
     for key, iv, data in cases(int(os.environ.get("VERIF_SEED", "0") or 0)):
         tried += 1
-        m._ROUND_KEY_CACHE.clear()
+        m.clear_cache()
         rks = key_expansion(key)
         got = run(m._expand_key, key)
         if got != rks:
@@ -420,7 +505,7 @@ def find(req):
         blk = (data + bytes(16))[:16]
         for fn, ref in ((m._aes_encrypt_block, enc_block), (m._aes_decrypt_block, dec_block)):
             got = run(fn, blk, rks)
-            if got != ref(blk, rks):
+            if got is not SKIP and got != ref(blk, rks):
                 return bad(fn.__name__, {"block": blk.hex(), "key": key.hex()}, ref(blk, rks).hex(), hx(got))
         for name, got, want in (("aes_ecb_encrypt", run(m.aes_ecb_encrypt, key, data), ecb(key, data)),
                                 ("aes_ecb_decrypt", run(m.aes_ecb_decrypt, key, data), ecb(key, data, False)),
@@ -431,6 +516,8 @@ def find(req):
         for n in range(0, 40, 7):
             d = data[:n] if len(data) >= n else bytes(n)
             p = run(m._pkcs7_pad, d, 16)
+            if p is SKIP:
+                continue
             if isinstance(p, str) or len(p) % 16 or p[:len(d)] != d or run(m._pkcs7_unpad, p, 16) != d:
                 return bad("_pkcs7_pad/_pkcs7_unpad", {"data": d.hex()}, "unpad(pad(d)) == d", hx(p))
     # PKCS#7: plaintexts ending in their own pad byte value, all pad lengths
@@ -439,19 +526,21 @@ def find(req):
             d = (bytes(range(1, 200)) * 2)[:n] + tail
             p = run(m._pkcs7_pad, d, 16)
             want_p = 16 - len(d) % 16
+            if p is SKIP:
+                p = d + bytes([want_p]) * want_p
             if isinstance(p, str) or len(p) != len(d) + want_p or p[:len(d)] != d or p[len(d):] != bytes([want_p]) * want_p:
                 return bad("_pkcs7_pad", {"data": d.hex()}, (d + bytes([want_p]) * want_p).hex(), hx(p))
             u = run(m._pkcs7_unpad, p, 16)
             if u != d:
                 return bad("_pkcs7_unpad", {"data": p.hex()}, d.hex(), hx(u))
-    for badpad in (b"abc\x00", b"abc\x11", b"ab\x02\x03", bytes(15) + b"\x05"):
+    for badpad in (bytes(12) + b"abc\x00", bytes(12) + b"abc\x11", bytes(12) + b"ab\x02\x03", bytes(15) + b"\x05", bytes(31) + b"\x00", bytes(30) + b"\x03\x02"):
         try:
             r = m._pkcs7_unpad(badpad, 16)
             return bad("_pkcs7_unpad", {"data": badpad.hex()}, "ValueError", bytes(r).hex())
-        except ValueError:
+        except (ValueError, Skip):
             pass
     # round-key cache: a sequence of keys that differ only by leading zero bytes / length, without clearing the cache
-    m._ROUND_KEY_CACHE.clear()
+    m.clear_cache()
     hist = [bytes(15) + b"\x07", bytes(23) + b"\x07", bytes(31) + b"\x07", b"\x07" + bytes(15), bytes(16), bytes(24), bytes(32), bytes(15) + b"\x07"]
     for key in hist + hist[::-1]:
         tried += 1
@@ -463,7 +552,7 @@ def find(req):
         try:
             m._get_round_keys(badkey)
             return bad("_get_round_keys", {"key": badkey.hex(), "history": "after valid keys were cached"}, "ValueError", "returned")
-        except ValueError:
+        except (ValueError, Skip):
             pass
     wrapper = _wrapper(m)
     if wrapper is not None:
@@ -476,15 +565,23 @@ def find(req):
     r = long_messages(m, int(os.environ.get("VERIF_SEED", "0") or 0)) or wrapper_long(m, cbc_enc)
     if r is not None:
         return bad(*r)
-    for fn, args in ((m._expand_key, (bytes(15),)), (m.aes_ecb_encrypt, (bytes(16), bytes(15))), (m.aes_cbc_encrypt, (bytes(16), bytes(15), bytes(16))),
-                     (m.aes_cbc_decrypt, (bytes(16), bytes(16), bytes(17))), (m._aes_encrypt_block, (bytes(15), key_expansion(bytes(16))))):
+    k16, b16 = bytes(16), bytes(16)
+    wrong = [(m._expand_key, (bytes(15),)), (m._aes_encrypt_block, (bytes(15), key_expansion(k16))), (m._aes_decrypt_block, (bytes(17), key_expansion(k16)))]
+    for badkey in (b"", bytes(15), bytes(17), bytes(20), bytes(33)):
+        wrong += [(m.aes_ecb_encrypt, (badkey, b16)), (m.aes_ecb_decrypt, (badkey, b16)), (m.aes_cbc_encrypt, (badkey, b16, b16)), (m.aes_cbc_decrypt, (badkey, b16, b16))]
+    for baddata in (bytes(1), bytes(15), bytes(17), bytes(31)):
+        wrong += [(m.aes_ecb_encrypt, (k16, baddata)), (m.aes_ecb_decrypt, (k16, baddata)), (m.aes_cbc_encrypt, (k16, b16, baddata)), (m.aes_cbc_decrypt, (k16, b16, baddata))]
+    for badiv in (b"", bytes(15), bytes(17), bytes(32)):
+        wrong += [(m.aes_cbc_encrypt, (k16, badiv, b16)), (m.aes_cbc_decrypt, (k16, badiv, b16)), (m.aes_cbc_encrypt, (k16, badiv, b"")), (m.aes_cbc_decrypt, (k16, badiv, b""))]
+    for fn, args in wrong:
+        shown = {"args": [a.hex() if isinstance(a, bytes) else "round keys" for a in args]}
         try:
             fn(*args)
-            return bad(fn.__name__, {"args": [a.hex() if isinstance(a, bytes) else "round keys" for a in args]}, "ValueError", "returned")
-        except ValueError:
+            return bad(fn.__name__, shown, "ValueError", "returned")
+        except (ValueError, Skip):
             pass
         except Exception as e:  # noqa
-            return bad(fn.__name__, {"args": "wrong lengths"}, "ValueError", type(e).__name__)
+            return bad(fn.__name__, shown, "ValueError", type(e).__name__)
     return {"reproduced": False, "note": f"{tried} key/iv/message triples and all table entries agree with the reference"}
 
 
